@@ -356,8 +356,11 @@ def run_property(prop, tier, replay=None, seed=0):
         'wall_s': round(time.time() - t0, 2),
         'violations': len(new),
     }
-    os.makedirs(os.path.join(VERIF, 'evidence'), exist_ok=True)
-    with open(os.path.join(VERIF, 'evidence', prop + '.json'), 'w') as fh:
+    # the self-test tools run the checks on deliberately broken trees: their records must not
+    # replace the evidence of the real tree
+    evdir = os.environ.get('VERIF_EVIDENCE_DIR') or os.path.join(VERIF, 'evidence')
+    os.makedirs(evdir, exist_ok=True)
+    with open(os.path.join(evdir, prop + '.json'), 'w') as fh:
         json.dump(ev, fh, indent=1, default=str)
     print('%s tier=%s: %d rule instances, %d ok, %d new violation(s), %d known; %d functions; cfgs=%s; %.1fs' % (
         prop, tier, n_all, n_ok, len(new), len(printed_known), len(rep.functions), ','.join(rep.cfgs), time.time() - t0))
